@@ -532,8 +532,9 @@ class Gradient:
             (alphas[i], alphas[i + 1])
             for i in range(len(alphas) - 1)]
         # TODO: handle other color spaces.
+        from .draw.color import to_srgb
         color_couples = [
-            [colors[i].to('srgb')[:3], colors[i + 1].to('srgb')[:3], 1]
+            [to_srgb(colors[i]), to_srgb(colors[i + 1]), 1]
             for i in range(len(colors) - 1)]
 
         # Premultiply colors
